@@ -73,12 +73,73 @@ pub struct NamePool {
     pub names: Vec<DomainName>,
 }
 
+/// A different name that is easily confused with `base`: the same octets split into labels differently (a literal '.'
+/// inside a label), a parent, a child, or one label changed in its last octet.  Distinct names that a lossy key
+/// (presentation form, suffix, prefix) would identify.
+pub fn gen_relative(rng: &mut Rng, base: &DomainName) -> Option<DomainName> {
+    let n = base.labels.len() - 1; // without the root label
+    if n == 0 {
+        return None;
+    }
+    let mut labels: Vec<Vec<u8>> = base.labels[..n].iter().map(|l| l.octets().to_vec()).collect();
+    match rng.below(6) {
+        0 | 1 if n >= 2 => {
+            // fuse two neighbouring labels with a literal dot
+            let i = rng.below(n - 1);
+            let mut fused = labels[i].clone();
+            fused.push(b'.');
+            fused.extend_from_slice(&labels[i + 1]);
+            if fused.len() > 63 {
+                return None;
+            }
+            labels[i] = fused;
+            labels.remove(i + 1);
+        }
+        2 => {
+            // the whole presentation form as one label
+            let mut one = Vec::new();
+            for (k, l) in labels.iter().enumerate() {
+                if k > 0 {
+                    one.push(b'.');
+                }
+                one.extend_from_slice(l);
+            }
+            if one.len() > 63 {
+                return None;
+            }
+            labels = vec![one];
+        }
+        3 => {
+            labels.remove(0);
+        }
+        4 => {
+            let len = rng.range(1, 5);
+            labels.insert(0, gen_label(rng, len, false));
+        }
+        _ => {
+            let i = rng.below(n);
+            let last = labels[i].len() - 1;
+            labels[i][last] = if labels[i][last] == b'x' { b'y' } else { b'x' };
+        }
+    }
+    let mut ls: Vec<Label> = Vec::with_capacity(labels.len() + 1);
+    for l in &labels {
+        ls.push(Label::try_from(&l[..]).ok()?);
+    }
+    ls.push(Label::new());
+    DomainName::from_labels(ls).filter(|d| d != base)
+}
+
 impl NamePool {
     pub fn new(rng: &mut Rng, n: usize) -> Self {
         let mut names = Vec::with_capacity(n);
         for i in 0..n {
             if i == 0 && rng.chance(1, 4) {
                 names.push(DomainName::root_domain());
+            } else if i > 0 && rng.chance(1, 4) {
+                // a relative of a name already in the pool
+                let base = rng.pick(&names).clone();
+                names.push(gen_relative(rng, &base).unwrap_or_else(|| gen_name(rng)));
             } else if rng.chance(1, 12) {
                 names.push(gen_max_name(rng));
             } else {
